@@ -129,6 +129,31 @@ def handle (line : String) : String :=
       | .error .unknown => s!"res=unknown must={must}"
       | .error .notExact => s!"res=notexact must={must}"
     | _, _ => "bad-op"
+  -- ONE filtered extractor list in TWO configurations (A enables first, then B). Model: `enableRequired` twice on the same (immutable)
+  -- lists. SPECIFICATION (sena2): what A holds after B's call is what it held after its own
+  | ["share", c, fsn, dan, dbn] =>
+    match capsOf? c, namesOf? fsn, namesOf? dan, namesOf? dbn with
+    | some c, some fsn, some dan, some dbn =>
+      match fromNames fsNames fsn, fromNames stNames ["all"], fromNames detNames dan, fromNames detNames dbn with
+      | .ok fs, .ok st, .ok da, .ok db =>
+        let fs := filterByCapabilities fs c
+        let st := filterByCapabilities st c
+        let en := fun (dets : List Plugin) => match enableRequired fsNames stNames fs st dets with
+          | .ok cfg => namesStr cfg.fs ++ "|" ++ namesStr cfg.st
+          | .error _ => "err"
+        s!"ena={en da} enb={en db} sena2={en da}"
+      | _, _, _, _ => "ena=badname enb=badname sena2=badname"
+    | _, _, _, _ => "bad-op"
+  -- capabilities left nil. SPECIFICATION: nothing is known about the environment, so exactly the plugins without requirements pass
+  -- (= validation against the zero value of Capabilities); never a panic
+  | ["nilcaps", k, r] =>
+    if k ≠ "val" ∧ k ≠ "flt" ∧ k ≠ "one" then "bad-op" else
+    match capsOf? r with
+    | some req => s!"snres={if validate req ⟨.any, .any, false, false⟩ then "ok" else "err"}"
+    | none => "bad-op"
+  -- the configuration binary/cli builds with --filter-by-capabilities. SPECIFICATION: plugins are configured from the flags and THEN
+  -- filtered, so enabling the required extractors and validating the requirements succeeds, and no plugin is enabled twice
+  | ["cli", _, _, _, _] => "scres=ok sdup=-"
   | ["pre", flt, c, fsn, stn, dn] =>
     match boolOf? flt, capsOf? c, namesOf? fsn, namesOf? stn, namesOf? dn with
     | some flt, some c, some fsn, some stn, some dn =>
